@@ -114,6 +114,20 @@ def run(res, tier, seed, broken_model):
         fam.append(("multi", (("tup", (I_, x)), ("tup", (I_, y)), ("tup", (I_, z)))))
         fam.append(("multi", (("fn", (), ("tup", (("bool",), x))), ("fn", (), ("tup", (("bool",), y))), ("fn", (), ("tup", (("bool",), z))))))
         fam.append(("multi", (("struct", (("a", x), ("b", I_))), ("struct", (("a", y), ("b", I_))), ("struct", (("a", z), ("b", I_))))))
+    # unions of TWO (or a chain of three) members whose parameter / content types are related by `matches` in one direction
+    # only (struct width and depth, arrays, tuples): a meet or join that treats `a <= b` and `b <= a` differently answers
+    # by visiting order (`params()`, `mut_assign_type()` fold `conjoin` over the members)
+    SAB, SA, SABC = ("struct", (("a", I_), ("b", I_))), ("struct", (("a", I_),)), ("struct", (("a", I_), ("b", I_), ("c", I_)))
+    SAW = ("struct", (("a", IF),))
+    for chain in ((SAB, SA), (SA, SAW), (SABC, SAB, SA), (A1, A2), (("tup", (I_, I_)), ("tup", (IF, I_))), (("arr", SAB), ("arr", SA)),
+                  (("tup", (SAB, I_)), ("tup", (SA, I_))), (("fn", (SA,), I_), ("fn", (SAB,), I_))):
+        fam.append(("multi", tuple(("fn", (x,), I_) for x in chain)))
+        fam.append(("multi", tuple(("fn", (I_, x), S_) for x in chain)))
+        fam.append(("multi", tuple(("cell", x) for x in chain)))
+        fam.append(("multi", tuple(("fn", (), x) for x in chain)))
+        fam.append(("multi", tuple(("arr", x) for x in chain)))
+        fam.append(("multi", tuple(("tup", (x, S_)) for x in chain)))
+        fam.append(("multi", tuple(("fn", (("cell", x),), I_) for x in chain)))
     # unions in which one member makes a query answer "nothing" (a non-iterator among iterators, a non-tuple among tuples,
     # a non-function among functions, a non-cell among cells ..) next to members whose answers absorb everything (`any`):
     # a fold that stops early, or skips members once the accumulator is `any`, answers differently per visiting order
